@@ -664,6 +664,9 @@ func (cs *ContractSet) loadFile(path string) error {
 	var ls []ln
 	for i, l := range lines {
 		t := strings.TrimSpace(l)
+		if strings.HasPrefix(t, "// @") {
+			t = "//@" + t[4:] // gofmt rewrites //@ to // @ inside doc comments
+		}
 		if !strings.HasPrefix(t, "//@") {
 			continue
 		}
